@@ -78,7 +78,12 @@ func monitor(op, path string) {
 		if st.IsDir() {
 			if !emptyDir(path) {
 				if op == "removeall" || op == "rename-from" {
-					logLine("VIOLATION %s %s a non-empty directory", op, path)
+					// Taking a whole directory away is what the property allows exactly when everything in it is
+					// the generator's own (the outcome is that of removing the owned files and then the directories
+					// this left empty); one foreign entry anywhere below makes it a loss.
+					if foreign := firstForeign(path); foreign != "" {
+						logLine("VIOLATION %s %s a directory that holds %s, which is not a generated file or the manifest", op, path, foreign)
+					}
 				}
 				// os.Remove on a non-empty directory fails by itself
 			}
@@ -95,6 +100,25 @@ func monitor(op, path string) {
 			logLine("VIOLATION %s %s creates a file that does not carry the generated-code suffix", op, path)
 		}
 	}
+}
+
+// firstForeign walks a directory (without following symbolic links) and returns the first entry that is neither a
+// directory nor owned by the generator nor one of its own temporaries; "" if there is none.
+func firstForeign(dir string) string {
+	found := ""
+	filepath.Walk(dir, func(p string, info os.FileInfo, err error) error {
+		if err != nil || found != "" {
+			return nil
+		}
+		if info.IsDir() {
+			return nil
+		}
+		if !Owned(p) && !selfCreated[filepath.Clean(p)] {
+			found = p
+		}
+		return nil
+	})
+	return found
 }
 
 // step counts the call and applies the planned disturbance. torn is called for the
